@@ -96,6 +96,18 @@ CLAIMED = {
                      "flavour and its sync twin, requires both to equal the model (hence each other), and compiles one program text against each twin. The Coq content "
                      "specific to C15 is small (coq/props/C15.v: twins_agree, Edge comparison traits); the assurance is carried by the correspondence, as DESIGN.md says.",
                 tech="differential correspondence of both twins against one Coq model (+ small Coq lemmas on Edge comparison) and a twin compile/run probe", ref="DESIGN.md §5 C15"),
+    "C17": dict(text="EXPLICITLY PARTIAL. Theorems (coq/props/C17.v) for every heap, every number of threads and every program over the micro-step model of the sync operations: a "
+                     "thread holds at most one guard; no reachable configuration is deadlocked; programs without isolate never panic or poison a lock; connect/try_connect/query "
+                     "programs mirror as multisets at quiescence; the explicit-guard and atomic semantics agree. The full property (no panic, serialisable) is REFUTED in the "
+                     "faithful model by five concrete schedules, each reproduced on real threads: mutations are two or more separately locked critical sections (D11) -> seven "
+                     "known-finding classes. The check replays the model's schedules of ~1.1k small scenarios (thorough: all schedules of all 2-thread single-call scenarios on 2 "
+                     "nodes) on real threads under a cooperative scheduler at lock points (hook gdsl_verif), plus free-running stress; a hang, deadlock, guard held at a lock point, "
+                     "or a panic / non-serialisable outcome outside the listed classes is a VIOLATION.",
+                tech="Coq proof (lock discipline, deadlock freedom, restricted panic freedom and quiescent mirror; refutations by vm_compute) + schedule exploration by the model replayed on real threads",
+                ref="DESIGN.md §5 C17, §10.3",
+                note="Trusted: Coq kernel; the cooperative scheduler and the lock-point hook (try_read/try_write probe taken while all other scheduled threads are parked); the hand-written "
+                     "micro-step model of each call (validated schedule by schedule against real threads). Not modelled: OS-level fairness, the futex RwLock's writer preference (only the "
+                     "free-running stress exhibits it), memory-model effects; concurrent traversals are represented by edge-iteration loops. Known findings: KNOWN_FINDINGS.txt (D11)."),
 }
 
 PENDING = {
